@@ -146,4 +146,18 @@ structure BufInit where
   refusesEmpty : Bool     -- `assert!(value.len() > 0)`
   deriving DecidableEq, Repr, Inhabited
 
+/-- Landmarks of `MRBFuture::poll`: a loop with one attempt site per calling convention, one waker registration placed after
+the attempt and after the `Pending` exit (so `Pending` is only returned by the iteration that follows the registration), one
+`Ready` and one `Pending` exit, and the payload put back before `Pending`. -/
+structure PollShape where
+  hasLoop : Bool
+  attemptSites : Nat
+  registerSites : Nat
+  readySites : Nat
+  pendingSites : Nat
+  restoresPayload : Bool
+  attemptBeforeRegister : Bool
+  pendingBeforeRegister : Bool
+  deriving DecidableEq, Repr, Inhabited
+
 end MRB
